@@ -165,6 +165,71 @@ def allowedAt (mapped : List Nat) (h : List Ev) (r : Res) : Bool :=
   | .panic .multi => decide (2 ≤ (hr.filter isWbegin).length)
   | .panic .sendClosed => hr.any isWbegin
 
+/-! ### the entry points and the glue around the core (round 4)
+
+Every public entry point is a configuration of the same core model:
+`MapReduce` = the core; `MapReduceChan` = the core with a source the library cannot catch a panic of
+(`gPanicAt = none`); `MapReduceVoid` = the core with a reducer that has no writer, `ErrReduceNoOutput ↦ nil`;
+`Finish(fns…)` = `MapReduceVoid` with one item per function, `WithWorkers(len fns)`, a mapper that calls
+`cancel(err)` iff the function returns a non-nil error, and an empty reducer; `ForEach` = the core with mappers
+that neither write nor cancel and the caller itself ranging over the collector (simulated by a reducer
+`[readAll]`: the caller's loop `select {panicChan → panic; collector closed → repanic; return}` is the
+reducer's `for range` + `finish` + the caller's `output`/`repanic` sequence with nothing in between that
+another goroutine can observe); `FinishVoid` = `ForEach` with `WithWorkers(len fns)`. -/
+
+def minWorkersN : Nat := 1
+def defaultWorkersN : Nat := 16
+
+/-- `WithWorkers(w)`: `if workers < minWorkers { minWorkers } else { workers }`. -/
+def clampWorkers (w : Int) : Nat := if w < (minWorkersN : Int) then minWorkersN else w.toNat
+
+/-- `buildOptions(opts…)`: `newOptions()` (defaultWorkers), then every `WithWorkers` in order: the last one wins. -/
+def workersOf (ws : List Int) : Nat := ws.foldl (fun _ w => clampWorkers w) defaultWorkersN
+
+/-- `errorx.AtomicError` over error codes (`none` = nil): `Set` stores non-nil errors only; `Load` returns the
+stored error or nil. -/
+def aeSet (cur err : Option Nat) : Option Nat := if err != none then err else cur
+def aeLoad (cur : Option Nat) : Option Nat := if cur != none then cur else none
+
+/-- what `cancel(err)` records: `if err != nil { retErr.Set(err) } else { retErr.Set(ErrCancelWithNil) }`
+(error code 0 stands for ErrCancelWithNil, user error k for k+1). -/
+def encErr : Err → Nat
+  | .nilCancel => 0
+  | .user k => k + 4
+  | .deadline => 1
+  | .noOutput => 2
+
+def cancelRecords (err : Option Nat) : Option Nat := aeSet none (if err != none then err else some (encErr .nilCancel))
+
+/-- the caller's `case v, ok := <-output` branch: `if e := retErr.Load(); e != nil { err = e } else if ok { val = v }
+else { err = ErrReduceNoOutput }` as (value, error) with 0 / none for the zero values. -/
+def callerOutput (retErr : Option Nat) (ok : Bool) (v : Nat) : Nat × Option Nat :=
+  if aeLoad retErr != none then (0, aeLoad retErr) else if ok then (v, none) else (0, some (encErr .noOutput))
+
+/-- `MapReduceVoid`: `if errors.Is(err, ErrReduceNoOutput) { return nil }; return err`. -/
+def voidReturn (err : Option Nat) : Option Nat := if err == some (encErr .noOutput) then none else err
+
+/-- one function handed to `Finish` / `FinishVoid`. -/
+inductive FnAct | ok | err (k : Nat) | panic
+  deriving DecidableEq, Repr
+
+def fnScript : FnAct → List UAct
+  | .ok => []
+  | .err k => [.cancel (some k)]
+  | .panic => [.panic]
+
+/-- `Finish(fns…)` (for `fns ≠ []`; `Finish()` returns nil without starting anything). -/
+def finishCfg (fns : List FnAct) : Cfg :=
+  { n := fns.length, workers := clampWorkers fns.length, gPanicAt := none,
+    mscript := fun i => match fns[i]? with | some f => fnScript f | none => [],
+    rscript := [], ctxCan := false, ctxPre := false, fixed := true }
+
+/-- `ForEach(generate, mapper, WithWorkers(w))` without a context; `pan i` = the mapper panics on item i. -/
+def forEachCfg (n : Nat) (w : Int) (gp : Option Nat) (pan : Nat → Bool) : Cfg :=
+  { n := n, workers := clampWorkers w, gPanicAt := gp,
+    mscript := fun i => if pan i then [.panic] else [],
+    rscript := [.readAll], ctxCan := false, ctxPre := false, fixed := true }
+
 /-! ### monitors over observations -/
 
 /-- peak number of mapper invocations running at once, from the start/end history
